@@ -6,6 +6,9 @@
 #include "../common/user_maps.hpp"
 #include <thread>
 #include <atomic>
+#include <condition_variable>
+#include <functional>
+#include <mutex>
 
 #ifndef VORDER
 #error "VORDER required"
@@ -123,6 +126,92 @@ struct ThreadedExecutor
     }
 };
 
+// worker threads that exist BEFORE an evaluation starts and survive it (a thread pool as an application would own it):
+// per-thread state set up inside evaluate() on the calling thread is not inherited by them
+struct WorkerPool
+{
+    std::vector<std::thread> th;
+    std::mutex mu;
+    std::condition_variable cv, doneCv;
+    std::vector<std::vector<int>> parts;
+    std::function<void(int)> job;
+    int generation = 0, pending = 0;
+    bool stop = false;
+    explicit WorkerPool(int n)
+    {
+        parts.resize(n);
+        for (int i = 0; i < n; ++i)
+            th.emplace_back([this, i]()
+                            {
+                                int seen = 0;
+                                for (;;)
+                                {
+                                    std::unique_lock<std::mutex> lk(mu);
+                                    cv.wait(lk, [&]() { return stop || generation != seen; });
+                                    if (stop)
+                                        return;
+                                    seen = generation;
+                                    std::vector<int> my = parts[i];
+                                    lk.unlock();
+                                    for (int v : my)
+                                    {
+                                        job(v);
+                                        std::this_thread::yield();
+                                    }
+                                    lk.lock();
+                                    if (--pending == 0)
+                                        doneCv.notify_all();
+                                } });
+    }
+    void run(const std::vector<std::vector<int>> &p, std::function<void(int)> j)
+    {
+        std::unique_lock<std::mutex> lk(mu);
+        parts = p;
+        job = std::move(j);
+        pending = (int)th.size();
+        ++generation;
+        cv.notify_all();
+        doneCv.wait(lk, [&]() { return pending == 0; });
+    }
+    ~WorkerPool()
+    {
+        {
+            std::lock_guard<std::mutex> lk(mu);
+            stop = true;
+        }
+        cv.notify_all();
+        for (auto &t : th)
+            t.join();
+    }
+};
+struct PoolExecutor
+{
+    WorkerPool *pool;
+    uint64_t seed;
+    template <typename Func>
+    void operator()(int start, int end, Func &&f) const
+    {
+        // random partition onto the pool's workers; a share of the indices is processed by the calling thread itself
+        const int nw = (int)pool->th.size();
+        std::vector<std::vector<int>> part(nw);
+        std::vector<int> mine;
+        Rng r(seed);
+        for (int i = start; i < end; ++i)
+        {
+            int k = r.range(0, nw);
+            if (k == nw)
+                mine.push_back(i);
+            else
+                part[k].push_back(i);
+        }
+        for (auto &v : part)
+            r.shuffle(v);
+        for (int i : mine)
+            f(i);
+        pool->run(part, [&](int i) { f(i); });
+    }
+};
+
 template <int ORDER, int DIM, class TM, class SM>
 struct Shared
 {
@@ -134,6 +223,13 @@ struct Shared
     std::vector<std::unique_ptr<WS>> wss;
     TM defaultTm;
     SM defaultSm;
+    std::unique_ptr<WorkerPool> pool;
+    WorkerPool *getPool(int n)
+    {
+        if (!pool || (int)pool->th.size() != n)
+            pool.reset(new WorkerPool(n));
+        return pool.get();
+    }
 };
 
 template <class Spline>
@@ -151,6 +247,7 @@ struct OptAdapter final : IOptimizer
 
     explicit OptAdapter(std::shared_ptr<Sh> s) : sh(s), opt(new Opt()) {}
     OptAdapter(std::shared_ptr<Sh> s, const Opt &o) : sh(s), opt(new Opt(o)) {}
+    OptAdapter(std::shared_ptr<Sh> s, Opt &&o, int) : sh(s), opt(new Opt(std::move(o))) {}
 
     static Mat toMat(const MatrixXd &m)
     {
@@ -182,6 +279,16 @@ struct OptAdapter final : IOptimizer
         return opt->setInitState(T, toMat(P), t0, toBC(bc));
     }
     bool setInitPts(const std::vector<double> &tp, const MatrixXd &P, const BC &bc) override { return opt->setInitState(tp, toMat(P), toBC(bc)); }
+    // warm restart: the exposed spline's own getters passed straight back (references into the optimizer's workspace)
+    bool reinitFromOwnSpline(int which) override
+    {
+        const Spline *sp = opt->getOptimalSpline();
+        if (!sp)
+            return false;
+        if (which == 0)
+            return opt->setInitState(sp->getTimeSegments(), sp->getSpacePoints(), sp->getStartTime(), sp->getBoundaryConditions());
+        return opt->setInitState(sp->getCumulativeTimes(), sp->getSpacePoints(), sp->getBoundaryConditions());
+    }
     void setFlags(const OptFlags &f) override
     {
         ST::OptimizationFlags o;
@@ -234,6 +341,8 @@ struct OptAdapter final : IOptimizer
             return evalWith(x, grad, prog, o, PermExecutor{&o.perm});
         case 3:
             return evalWith(x, grad, prog, o, ThreadedExecutor{o.threads, o.partitionSeed});
+        case 5:
+            return evalWith(x, grad, prog, o, PoolExecutor{sh->getPool(o.threads), o.partitionSeed});
         default:
             return evalWith(x, grad, prog, o, ST::OpenMPExecutor());
         }
@@ -278,6 +387,20 @@ struct OptAdapter final : IOptimizer
     const void *optimalSplineAddr() const override { return opt->getOptimalSpline(); }
     std::unique_ptr<IOptimizer> clone() const override { return std::unique_ptr<IOptimizer>(new OptAdapter(sh, *opt)); }
     void assignFrom(const IOptimizer &o) override { *opt = *static_cast<const OptAdapter &>(o).opt; }
+    // construction / assignment from an rvalue whose storage is released straight afterwards (std::move, container growth)
+    std::unique_ptr<IOptimizer> cloneByMove() const override
+    {
+        std::unique_ptr<Opt> tmp(new Opt(*opt));
+        std::unique_ptr<OptAdapter> r(new OptAdapter(sh, std::move(*tmp), 0));
+        tmp.reset();
+        return r;
+    }
+    void assignFromMoved(const IOptimizer &o) override
+    {
+        std::unique_ptr<Opt> tmp(new Opt(*static_cast<const OptAdapter &>(o).opt));
+        *opt = std::move(*tmp);
+        tmp.reset();
+    }
     void selfAssign() override
     {
         Opt *p = opt.get();
@@ -310,6 +433,9 @@ struct SplineCopyView final : ISpline
     void updatePts(const std::vector<double> &, const MatrixXd &, const BC &) override { no(); }
     void updateDurDefaultBC(const std::vector<double> &, const MatrixXd &, double) override { no(); }
     void updatePtsDefaultBC(const std::vector<double> &, const MatrixXd &) override { no(); }
+    void updateFromOwnGetters(int, double) override { no(); }
+    void copyRefThenUpdate(bool, const std::vector<double> &, const MatrixXd &, double, const BC &, MatrixXd &, std::vector<double> &) override { no(); }
+    double trajLengthDefault() const override { return s.getTrajectory().getTrajectoryLength(); }
     bool isInitialized() const override { return s.isInitialized(); }
     MatrixXd coeffs() const override { return fromMat(s.getTrajectory().getCoefficients()); }
     std::vector<double> breakpoints() const override { return s.getTrajectory().getBreakpoints(); }
